@@ -84,6 +84,16 @@ impl std::fmt::Debug for Table {
     }
 }
 
+#[cfg(feature = "verif")]
+impl Table {
+    /// `(min, max)` sequence numbers as recorded in the metadata (without global seqno).
+    #[doc(hidden)]
+    #[must_use]
+    pub fn verif_seqnos(&self) -> (SeqNo, SeqNo) {
+        self.metadata.seqnos
+    }
+}
+
 impl Table {
     #[must_use]
     pub fn global_seqno(&self) -> SeqNo {
